@@ -238,3 +238,49 @@ pub fn run_worker(args: &[String], draw: &dyn Fn(&str, u64, &str) -> Case, exec:
     cleanup();
     0
 }
+
+/// Everything observable about one run, folded into one number (determinism self-check).
+pub fn fingerprint(v: &Verdict) -> u64 {
+    let mut h = rng::Fnv::default();
+    h.u64(v.trace);
+    h.u64(v.sim_events);
+    h.u64(v.stats.steps);
+    h.u64(v.stats.commits);
+    for (k, n) in &v.counters {
+        h.str(k);
+        h.u64(*n);
+    }
+    if let Some(x) = &v.violation {
+        h.str(&x.oracle);
+        h.str(&x.site);
+        h.str(&x.detail);
+    }
+    if let Some(x) = &v.aborted {
+        h.str(&x.oracle);
+        h.str(&x.site);
+    }
+    h.str(&v.extra_out.to_string());
+    h.0
+}
+
+/// `args` = [prop, tier, start, stride, base_seed, count]: prints "index fingerprint" lines
+pub fn run_traces(args: &[String], draw: &dyn Fn(&str, u64, &str) -> Case, exec: &dyn Fn(&Case) -> Verdict, cleanup: &dyn Fn()) -> i32 {
+    let prop = &args[0];
+    let tier = &args[1];
+    let start: u64 = args[2].parse().unwrap();
+    let n: u64 = args[3].parse().unwrap();
+    let base: u64 = args[4].parse().unwrap();
+    let count: u64 = args[5].parse().unwrap();
+    let mut i = start;
+    let mut out = String::new();
+    while i < count {
+        let seed = case_seed(base, prop, i);
+        let case = draw(prop, seed, tier);
+        let v = exec(&case);
+        out.push_str(&format!("{} {:016x}\n", i, fingerprint(&v)));
+        i += n;
+    }
+    cleanup();
+    print!("{}", out);
+    0
+}
